@@ -254,10 +254,17 @@ pub fn shrink(ops: &[String], keep: usize, fails: &mut dyn FnMut(&[String]) -> b
     let mut cur: Vec<String> = ops.to_vec();
     let mut chunk = (cur.len().saturating_sub(keep) / 2).max(1);
     let mut budget = 400usize;
+    // wall-clock cap: shrinking must never dominate a check (a model re-run can take seconds)
+    let cap_s: u64 = std::env::var("VERIF_SHRINK_S").ok().and_then(|v| v.parse().ok()).unwrap_or(45);
+    let deadline = std::time::Instant::now() + std::time::Duration::from_secs(cap_s);
     loop {
         let mut i = keep;
         let mut changed = false;
         while i < cur.len() && budget > 0 {
+            if std::time::Instant::now() > deadline {
+                budget = 0;
+                break;
+            }
             let end = (i + chunk).min(cur.len());
             let mut cand = cur[..i].to_vec();
             cand.extend_from_slice(&cur[end..]);
